@@ -54,6 +54,70 @@ def global_state():
         return tuple(out)
 
 
+def reachable_ids(x, acc=None):
+    """ids of every object reachable from x through __dict__ / containers (the objects that exist before a render)."""
+    if acc is None:
+        acc = set()
+    if isinstance(x, (str, int, float, bool, type(None), bytes)) or isinstance(x, type):
+        return acc
+    if id(x) in acc:
+        return acc
+    acc.add(id(x))
+    if isinstance(x, (list, tuple, set, frozenset)):
+        for v in x:
+            reachable_ids(v, acc)
+    elif isinstance(x, dict):
+        for k, v in x.items():
+            reachable_ids(k, acc)
+            reachable_ids(v, acc)
+    else:
+        d = getattr(x, "__dict__", None)
+        if isinstance(d, dict):
+            for v in d.values():
+                reachable_ids(v, acc)
+    return acc
+
+
+class WriteWatch:
+    """Records attribute assignments made on library objects while active (class-level __setattr__ hooks).  A write to an
+    object that existed before the render is a violation even if it is undone before get_sql returns."""
+
+    def __init__(self, preexisting):
+        self.pre = preexisting
+        self.writes = []
+        self.saved = []
+
+    def __enter__(self):
+        import enum
+        for qn, cls in introspect.classes().items():
+            if issubclass(cls, enum.Enum) or cls.__name__ == "SqlContext" or issubclass(cls, BaseException):
+                continue
+            old = vars(cls).get("__setattr__")
+
+            def hook(obj, name, value, _w=self.writes, _pre=self.pre):
+                if id(obj) in _pre:
+                    _w.append(type(obj).__name__ + "." + name)
+                object.__setattr__(obj, name, value)
+
+            try:
+                setattr(cls, "__setattr__", hook)
+                self.saved.append((cls, old))
+            except (TypeError, AttributeError):
+                pass
+        return self
+
+    def __exit__(self, *exc):
+        for cls, old in self.saved:
+            if old is None:
+                try:
+                    delattr(cls, "__setattr__")
+                except AttributeError:
+                    pass
+            else:
+                setattr(cls, "__setattr__", old)
+        return False
+
+
 def render_all(x, d0, dialects=None):
     """SQL (and parameter values) under the 12 contexts, then str / hash / == (which also render)."""
     out = []
@@ -100,12 +164,20 @@ def equal_lists(a, b):
     return True
 
 
-def rerender_check(name, X, d, args, dialects=None):
+def rerender_check(name, X, d, args, dialects=None, watch=False):
     g0 = global_state()
     s0 = snap_nt(X)
-    r1 = render_all(X, d, dialects)
+    if watch:
+        with WriteWatch(reachable_ids(X)) as w:
+            r1 = render_all(X, d, dialects)
+        writes = sorted(set(w.writes))
+    else:
+        r1 = render_all(X, d, dialects)
+        writes = []
     ok, why = True, ""
-    if not same_nt(snap_nt(X), s0):
+    if writes:
+        ok, why = False, "rendering assigned attributes of existing objects: " + ", ".join(writes[:6])
+    if ok and not same_nt(snap_nt(X), s0):
         ok, why = False, "rendering changed the object"
     r2 = render_all(X, d, dialects)
     if ok and not same_nt(snap_nt(X), s0):
@@ -150,7 +222,7 @@ def c02_rerender(ci: int, d: int) -> int:
             return SKIP
         if not hasattr(X, "get_sql"):
             return SKIP
-        return rerender_check("c02_rerender", X, d, dict(ci=ci, d=d))
+        return rerender_check("c02_rerender", X, d, dict(ci=ci, d=d), watch=True)
 
 
 @harness(
@@ -173,6 +245,67 @@ def c02_rerender_symbolic(sk: int, d: int, s: str) -> int:
     note("case", sk)
     # own dialect and one foreign dialect, inline and parameterised (symbolic renderings are costly)
     return rerender_check("c02_rerender_symbolic", X, d, dict(sk=sk, d=d, s=s), dialects=(d, (d + 1) % ND))
+
+
+def term_object(k):
+    from harness import c16
+    from pypika_tortoise.terms import Interval, Parameter
+    from pypika_tortoise import analytics as an
+    t, o = Table("t"), Table("o")
+    if k < c16.NTERM:
+        return c16.build_term(k, t, o)
+    k -= c16.NTERM
+    if k == 0:
+        return Interval(days=3)
+    if k == 1:
+        return Interval(years=1, months=2, days=-0 + 4, hours=5)
+    if k == 2:
+        return Interval(quarters=2)
+    if k == 3:
+        return Field("d") + Interval(weeks=1)
+    if k == 4:
+        return fn.DateAdd("day", Interval(days=3), Field("d"))
+    if k == 5:
+        return Parameter(idx=2)
+    if k == 6:
+        return an.LastValue(Field("a")).over(Field("b")).rows(an.Preceding(2), an.Following()).ignore_nulls()
+    if k == 7:
+        return Table("t", schema="s").for_(Field("sys").between(1, 2))
+    raise AssertionError(k)
+
+
+NTERMOBJ = 32 + 8
+
+
+@harness(
+    prop="C02",
+    cubes={"k": range(NTERMOBJ)},
+    bounds={"quick": {}, "thorough": {}},
+    timeout={"quick": 120, "thorough": 300},
+    witness=[dict(k=32, first=2), dict(k=7, first=0)],
+    doc="term-level objects (32 term kinds of C16, intervals, parameters, window functions, temporal tables) rendered "
+        "under the 12 contexts starting from a symbolic first dialect (rotation), twice; attribute writes watched",
+)
+def c02_terms(k: int, first: int) -> int:
+    """
+    bound: 0 <= first <= 5
+    """
+    first = c01.pin_d(first)
+    with _NoTracing():
+        X = term_object(k)
+        Y = term_object(k)  # untouched twin: what a fresh object renders
+        order = tuple((first + i) % ND for i in range(ND))
+        v = rerender_check("c02_terms", X, first, dict(k=k, first=first), dialects=order, watch=True)
+        if v == OK:
+            # rendering history must not matter: the twin rendered in the natural order gives the same texts per context
+            a = render_all(X, first, dialects=range(ND))
+            b = render_all(Y, 0, dialects=range(ND))
+            if not equal_lists(a, b):
+                note("why", "an object rendered before under another dialect renders differently from a fresh one")
+                note("first", [x for x in a if isinstance(x, str)][:4])
+                note("second", [x for x in b if isinstance(x, str)][:4])
+                return verdict(False, "c02_terms", k=k, first=first)
+        return v
 
 
 # ---- hash seed ---------------------------------------------------------------------------------
@@ -228,7 +361,7 @@ def seed_objects(k, d, names):
     prop="C02",
     cubes={"k": range(4), "d": range(ND)},
     bounds={"quick": {}, "thorough": {}},
-    timeout={"quick": 120, "thorough": 300},
+    timeout={"quick": 400, "thorough": 900},
     witness=[dict(k=0, d=2, p1=0, p2=5, order=0)],
     doc="hash-seed independence: statements that put user data into sets (FOR UPDATE OF names, starred tables, join "
         "validation, RETURNING validation) built and rendered under two symbolic set-iteration permutations (p1, p2 in "
